@@ -20,33 +20,33 @@ CLAIMS = {
  "C02": ("FIFO shape census of both queues + counting typestate over the drain loop + no-drop typestate over enqueue + listener call-path check",
          "Structural necessary conditions of exactly-once / in-order: both queues are tail-append / head-pop only, the drain loop calls each slot once and advances by one, "
          "every accepted submission stores the callback exactly once and wakes a worker, one synchronous listener feeds requests with no go on the path to enqueue, and With "
-         "errs iff no handler. The order observed under a concrete schedule is not executed; it follows from these shapes plus the mutex.", "DESIGN.md section 4 C02"),
+         "errs iff no handler. The group registry is re-created per run, so no submission is parked on an orphaned work item after a restart. The order observed under a concrete schedule is not executed; it follows from these shapes plus the mutex.", "DESIGN.md section 4 C02"),
  "C03": ("state-machine extraction over atomic accesses + dominance-order obligations + critical-section typestate (closed queue stays closed) + who-may-write of the connection field",
          "Decides for every interleaving the structural causes of hangs, leaked workers, double close, use-after-clear and refused restarts: legal state transitions only, close protocol order, "
-         "workers awaited before 'stopped', worker exits on observing the closed queue, started-checks dominate every publishing entry point, a closed work queue is never re-opened, the connection "
+         "workers awaited before 'stopped', worker exits on observing the closed queue, started-checks dominate every publishing entry point, a closed work queue is never re-opened, the listener receives on the channel value this run created (not a re-read of the cleared field), the connection "
          "field is not written while readers may run (one known finding). Bounded time itself is not decided.", "DESIGN.md section 4 C03"),
  "C04": ("flag-sensitive must-reply typestate over SSA CFGs + who-may-write/publish census",
          "Path-universal structural obligations: on every CFG path of request processing (handlers as havoc: reply 0/1 times, return or panic) "
          "library code replies exactly once; reply funnel guarded by the replied flag; recover closure replies iff not replied; every response "
-         "method that may reply must reply. Level 'other': necessary (and jointly close to sufficient) conditions of the behavioural statement, "
+         "method that may reply must reply (private helpers analysed in place, also across a boolean helper result); requests are not parked on an orphaned work item after a restart. Level 'other': necessary (and jointly close to sufficient) conditions of the behavioural statement, "
          "decided statically for all handler programs rather than sampled.", "DESIGN.md section 4 C04"),
  "C08": ("event classification (apply/publish/listener/panic) + path-universal typestate and dominance over every event method + no-go-on-publish-path census",
          "Decides for every handler/listener program the order apply -> publish -> listeners, at most one publish per call, that a failing apply, an apply reporting no change, an empty change "
          "and every invalid call (wrong type, negative index, reserved or malformed name - the validator rejecting empty, <33, >126 and the reserved characters) reach no publish and no listener, that Event fields flow from the apply results / arguments, and that "
          "nothing between an event/reply call and Conn.Publish is asynchronous. What apply handlers and listeners do is opaque.", "DESIGN.md section 4 C08"),
  "C05": ("table bijection (payload struct -> request field -> accessor), sibling agreement (dispatcher vs subscribe, call vs auth lookup), error-mapping value flow, literal vocabulary",
-         "Decides the structure that carries the for-all-inputs statement: the payload is decoded by whole-input json.Unmarshal of the message data and a decode error never reaches a handler; each decoded payload member reaches exactly one accessor unconverted; routed data comes from the Match; the dispatcher's "
+         "Decides the structure that carries the for-all-inputs statement: the payload is decoded by whole-input json.Unmarshal of the message data and a decode error never reaches a handler; each decoded payload member reaches exactly one accessor unconverted; routed data comes from the Match, whose params come from the atomically assembled match record; the dispatcher's "
          "request types equal the subscribed ones; call/auth use [method] then [*] then methodNotFound and new prefers New; method stripping and method wildcards cover the same types; recovered "
          "*Error is passed verbatim and everything else becomes an internal error; not-found / method-not-found / missing-reply outcomes use literals with the right code. Subject split arithmetic "
          "and JSON decoding are not decided.", "DESIGN.md section 4 C05"),
  "C06": ("CFG-reachability order of candidate reads + units rule for mount-relative indexes (value-flow census) + panic-guard dominance at registration + match-record assembly census",
          "Decides structural necessary conditions of routing: literal before placeholder before wildcard with fall-through on a failed recursive match; mount-relative index fields are written as "
-         "tokenIndex-mountIndex and rebased at every read (one known finding: group tag indexes); registration validates before storing; a group ${tag} is located by whole-token equality in the split pattern; the match record (node, mount index, params) is written "
+         "tokenIndex-mountIndex and rebased at every read (one known finding: group tag indexes); registration validates before storing; a group ${tag} is located by whole-token equality in the split pattern; the lookup call tree writes no shared state (concurrent lookups cannot mix their tokens); the match record (node, mount index, params) is written "
          "atomically at the accept sites and the returned Match takes handler, listeners and group from that one node. Equality with a reference matcher over all inputs is not decided.", "DESIGN.md section 4 C06"),
  "C07": ("funnel census + subject-template matching over concatenation trees + validator rune-class facts + struct-tag / literal vocabulary checks",
          "Decides for every handler program that each published subject is an instance of one of the five documented templates with validated variable parts, that the token validator rejects "
          "everything NATS forbids, that every reply envelope and every static payload literal has exactly one of result/resource/error with string code/message, that meta is only reachable "
-         "behind the HTTP and not-replied guards, that marshal output is published only when err==nil and a marshal failure always becomes system.internalError (ToError maps by plain type assertion, no unwrapping), and that pre-responses and event payload structs have the documented shape. JSON "
+         "behind the HTTP and not-replied guards, that marshal output is published only when err==nil and a marshal failure always becomes system.internalError (ToError maps by plain type assertion, no unwrapping), that every reply payload is a package-level literal or json.Marshal output (never string concatenation), and that pre-responses and event payload structs have the documented shape. JSON "
          "produced by encoding/json for user values is trusted.", "DESIGN.md section 4 C07"),
  "C11": ("lock-mode pairing census + sentinel reachability + callback-count typestate with argument value flow + closure-order dominance + receiver-kind cache-coherence rule",
          "Decides per shipped store the structural part of map-equivalence: Read/Write acquire and the txn's own Close releases the same mode on the txn id exactly once; duplicate / not-found "
@@ -59,40 +59,40 @@ CLAIMS = {
          "the index prefixes before its single re-scan. Crash points, fsync and BadgerDB recovery are not explored.", "DESIGN.md section 4 C12"),
  "C13": ("symbolic linear layout check of hand-built keys + writer/reader constant agreement + funnel census + badger iterator API-usage rule",
          "Decides the structural part of index queries: key and prefix buffers are exactly filled for every input length and agree with the reader on ':' / separator / name length; nil keys are "
-         "never indexed and nil is not confused with an empty key; maintenance runs only in the FIFO task Flush awaits; a reverse-capable iterator is not sought with the bare prefix; limit 0 and "
+         "never indexed and nil is not confused with an empty key; maintenance runs only in the FIFO task Flush awaits, on before-values that are the stored values (transaction cache dead or refreshed); a reverse-capable iterator is not sought with the bare prefix; limit 0 and "
          "negative limit guards. The sorted/filtered/windowed result itself is arithmetic over data and not decided.", "DESIGN.md section 4 C13"),
  "C14": ("must-pass-through dominance for the query-change fan-out + guard analysis of the unchanged-key predicate with sibling agreement + reset-edge reachability in the query handler",
-         "Decides that index maintenance and its notifications run only as tasks of the blocking FIFO queue (per-id order), that subscribers are notified only after the index transaction committed and only when some key changed, that the unchanged-key predicate keeps nil and empty keys apart and is the "
+         "Decides that index maintenance and its notifications run only as tasks of the blocking FIFO queue (per-id order) on before-values that are the stored values, that subscribers are notified only after the index transaction committed and only when some key changed, that the unchanged-key predicate keeps nil and empty keys apart and is the "
          "same in maintenance and affectsQuery, and that the handler honours the reset flag and dispatches the same event names in both paths. Soundness of affected-ness for arbitrary key "
          "functions is not decided.", "DESIGN.md section 4 C14"),
  "C17": ("sibling analysis of the pattern scanners: token-start-flag recogniser (loop-head bool phi) + guard dominance on every wildcard comparison + validator rune-class agreement + single-pass replacement rule",
          "Decides that no pattern operation can give '$', '*' or '>' a wildcard meaning in the middle of a token (each wildcard comparison is under a token-start guard; Values' exception is "
-         "accepted only with its whole-token witness; the mux compares token[0]), that the three validators accept the same character range, and that tag replacement is one simultaneous pass. "
+         "accepted only with its whole-token witness; the mux compares token[0]), that no operation looks for a wildcard character with a position-blind strings/bytes search, that the three validators accept the same character range, and that tag replacement is one simultaneous pass. "
          "Agreement of the operations on every string and round-trips are not enumerated.", "DESIGN.md section 4 C17"),
  "C09": ("who-may-read/write census of the ownership lists + dominance (default before read) + sibling comparison of the two subscription loops + predicate/dispatcher field-set agreement + possibly-empty-value use census",
-         "Decides that subscriptions and reset are built from the same defaulted lists, that request types x lists and the method wildcard are formed as documented, that every subscription passes "
+         "Decides that subscriptions and reset are built from the same lists, defaulted only when nil, that request types x lists and the method wildcard are formed as documented, that every subscription passes "
          "the in-channel with the right queue variant and propagates its error, that both subscription loops skip covered patterns (access loop: known finding) with the covering test applied to every other pattern (no text-dependent pre-filter), that default ownership looks at "
          "the handler kinds the dispatcher serves, that an empty service path never becomes a bare token, and that reconnects re-announce ownership. Covering for arbitrary user lists is not decided.", "DESIGN.md section 4 C09"),
  "C18": ("constant / struct-tag / literal vocabulary agreement across three packages (literals parsed inside the analyser) + symbolic linear layout check of hand-assembled buffers + value-flow of the variable segment",
-         "Decides the structural part of wire compatibility: reference, soft-reference, delete-action and data-value members agree between service, store and client, and the data member is decoded into json.RawMessage so that null stays distinct from absent; response / get / access result "
+         "Decides the structural part of wire compatibility: reference, soft-reference, delete-action and data-value members agree between service, store and client, and the data member is decoded into json.RawMessage so that null stays distinct from absent, and no UnmarshalJSON keeps its input slice; response / get / access result "
          "members agree between service and client; every hand-built JSON buffer is exactly filled for all input lengths and its variable part is json.Marshal output (so escaping is the "
          "encoder's). decode(encode(x))==x on values is not decided.", "DESIGN.md section 4 C18"),
  "C19": ("path obligations on SendRequest's CFG: release-after-acquire with deferred call, error-edge reachability, select-arm classification, dominating-condition census for the timer restart, literal agreement with the service",
-         "Decides that the inbox subscription is released on every return after a successful subscribe and is touched by nothing else before (no AutoUnsubscribe/Drain ending the interest early), that marshal/subscribe/publish failures return an internal error before the wait loop, "
+         "Decides that the inbox subscription is released on every return after a successful subscribe and is touched by nothing else before (no AutoUnsubscribe/Drain ending the interest early), that the inbox channel is buffered, that marshal/subscribe/publish failures return an internal error before the wait loop, "
          "that the timer arm returns ErrTimeout and a non-pre-response is parsed and returned, that a parsed timeout pre-response unconditionally stops the timer, installs one of exactly the "
          "announced milliseconds and notifies every callback, and that the pre-response key matches the service's literal. Wall-clock behaviour is not decided.", "DESIGN.md section 4 C19"),
  "C15": ("must-reply typestate on query request handling + funnel / who-may-call census of the nil callback + value identity of the inbox subject + loop-capture rule + channel-close reachability for library goroutines",
          "Decides that every query request path replies exactly once whatever the callback does, that requests and expiry run in the resource's group, that the nil callback has exactly two mutually "
-         "exclusive sources and a stored subscription is always registered for expiry, that one fresh inbox value is subscribed and announced, that queued closures do not share a loop variable, and "
+         "exclusive sources and a stored subscription is always registered for expiry, that one fresh inbox value is subscribed and announced, that the expiry queue is rebuilt per run from the configured duration, that queued closures do not share a loop variable, and "
          "that every library goroutine ranging over a channel can terminate (query listener: known finding). Timing of late requests versus the drain is not decided.", "DESIGN.md section 4 C15"),
  "C16": ("lockset discipline (lock-state dataflow x field access census) on the shared structures with named exemptions + logger/mock-store lock rules + shared-loop-variable rule",
          "A discipline check, not a race proof: every Service/work field written outside configuration and initialisation is accessed only under the queue mutex or only atomically (two known "
-         "findings: Shutdown clearing nc/inCh), the in-memory logger's buffer is used under its mutex, the mock store's map only inside transaction methods (or their private helpers), the check-then-register of a group's work item is one critical section (the premise of group confinement, shared with C01.A2), and no closure handed on from a loop "
+         "findings: Shutdown clearing nc/inCh), the in-memory logger's buffer is used under its mutex, the mock store's map only inside transaction methods (or their private helpers), the check-then-register of a group's work item is one critical section (the premise of group confinement, shared with C01.A2), stores into request objects target memory allocated by the constructing function (no pointer into the query event or service), and no closure handed on from a loop "
          "shares a re-assigned variable. Per-request objects are confined by contract and not analysed; user code and third-party modules are out of reach.", "DESIGN.md section 4 C16"),
  "C20": ("who-may-call census of transaction writes + guard -> sentinel signature extraction with comparison operators + sibling agreement of the two middleware copies + value-flow of old values",
          "Decides that every middleware apply handler reads and rewrites the resource inside one DB.Update closure, that the inapplicability guards (add len<idx, remove len<=idx, create on "
          "existing/defaulted, change/remove on missing without default) return their sentinel before the write, that the two copies agree guard-for-guard, that 'absent' is decided by the map's "
-         "presence flag and old values are the looked-up values or the delete action, that delete returns what its transaction read, and that the shared default bytes are never a write destination (ValueCopy buffer, element store). Fold-equivalence over event histories and reopen are "
+         "presence flag and old values are the looked-up values or the delete action, that delete returns what its transaction read, and that the shared default bytes are never a write destination (ValueCopy buffer, element store) and no element is inserted through a truncated prefix of a slice whose tail is read afterwards. Fold-equivalence over event histories and reopen are "
          "not decided; 'a failing apply publishes nothing' is C08.O3.", "DESIGN.md section 4 C20"),
 }
 
